@@ -148,6 +148,20 @@ def run_function_level(m, scratch, rng, rep, n_seq):
             fnmod.n0(fail_spec)
         except ValueError:
             pass
+        # a store state, not an operation: the data object of one memoized result is missing (a copy published
+        # metadata first, an unmounted data path); calls through the read-only store recompute, and change nothing
+        damaged = None
+        if s % 3 == 2 and pre:
+            try:
+                from urllib.parse import urlparse, unquote
+                st_w = FilesystemStorageBackend(path=data)
+                url = st_w.make_url_for_result(fnmod.n0.memento(pre[0]))
+                fpath = unquote(urlparse(url).path)
+                if os.path.isfile(fpath) and os.path.realpath(fpath).startswith(os.path.realpath(root)):
+                    os.remove(os.path.realpath(fpath))
+                    damaged = pre[0]["id"]
+            except Exception:
+                damaged = None
         moved = s % 2 == 1
         if moved:
             # the populated store is moved (mounted elsewhere) before it is opened read-only
@@ -169,7 +183,11 @@ def run_function_level(m, scratch, rng, rep, n_seq):
                                   {"variant": variant, "populate": pre, "spec": sp})
                     continue
                 ran = [e for e in tr.execs() if e[1] == "n0"]
-                if sp["id"] in expect and moved:
+                if sp["id"] == damaged:
+                    if v != expect[sp["id"]] or len(ran) > 1:
+                        rep.violation("C19:readonly-call-over-missing-data", "call whose stored result data is missing, through a read-only store: returned %r (expected %r), body ran %d times" % (v, expect[sp["id"]], len(ran)),
+                                      {"variant": variant, "populate": pre, "spec": sp, "result data removed": True})
+                elif sp["id"] in expect and moved:
                     # whether a relocated store still finds its entries is not the property's business; it must answer correctly
                     if v != expect[sp["id"]] or len(ran) > 1:
                         rep.violation("C19:readonly-memoized-call-not-served", "call through a relocated read-only store returned %r (expected %r), body ran %d times" % (v, expect[sp["id"]], len(ran)),
